@@ -70,6 +70,7 @@ func (h *stdHarness) Step(ev *Event, step int) (Result, *Violation) {
 	}
 	res := h.w.Apply(ev)
 	debugAuc(h.w, ev, res)
+	debugEsm(h.w, ev, res)
 	if h.w.Panicked != "" {
 		if h.spec.PanicIsViolation {
 			return res, &Violation{Property: h.spec.ID, OracleID: strings.ToLower(h.spec.ID) + ".no_panic", Signature: panicSig(h.w.Panicked), Detail: h.w.Panicked, Step: step}
